@@ -21,6 +21,7 @@ type typeDef struct {
 	body       []byte
 }
 type project struct {
+	name  string // file name of the root schema (default "root")
 	root  []byte
 	types []typeDef
 	rules []typeDef
@@ -42,6 +43,9 @@ func parseProject(a []string) (project, []string) {
 		case "all":
 			p.all = true
 			i++
+		case "N":
+			p.name = string(unhex(a[i+1]))
+			i += 2
 		default:
 			return p, a[i:]
 		}
@@ -61,7 +65,11 @@ func (p project) newSchema(name string, body []byte) (*jschema.JSchema, error) {
 
 // build creates the root JSchema with all rules and types registered. The error is the first failing AddRule/AddType.
 func (p project) build() (*jschema.JSchema, error) {
-	root, err := p.newSchema("root", p.root)
+	rootName := p.name
+	if rootName == "" {
+		rootName = "root"
+	}
+	root, err := p.newSchema(rootName, p.root)
 	if err != nil {
 		return root, err
 	}
@@ -256,5 +264,86 @@ func init() {
 			return strings.ReplaceAll(err.Error(), "\n", "\\n")
 		}
 		return "ok"
+	}
+}
+
+// shape of a JSON text: objects {..}, arrays [..], scalars L (members in textual order)
+func jsonShape(b []byte) string {
+	dec := stdjson.NewDecoder(strings.NewReader(string(b)))
+	var sb strings.Builder
+	type frame struct {
+		obj   bool
+		isKey bool
+	}
+	var st []frame
+	for {
+		t, err := dec.Token()
+		if err != nil {
+			break
+		}
+		if d, ok := t.(stdjson.Delim); ok {
+			switch d {
+			case '{':
+				sb.WriteByte('{')
+				st = append(st, frame{true, true})
+				continue
+			case '[':
+				sb.WriteByte('[')
+				st = append(st, frame{false, false})
+				continue
+			case '}':
+				sb.WriteByte('}')
+			case ']':
+				sb.WriteByte(']')
+			}
+			st = st[:len(st)-1]
+			if len(st) > 0 && st[len(st)-1].obj {
+				st[len(st)-1].isKey = true
+			}
+			continue
+		}
+		if len(st) > 0 && st[len(st)-1].obj && st[len(st)-1].isKey {
+			st[len(st)-1].isKey = false
+			continue
+		}
+		sb.WriteByte('L')
+		if len(st) > 0 && st[len(st)-1].obj {
+			st[len(st)-1].isKey = true
+		}
+	}
+	return sb.String()
+}
+
+func init() {
+	// rec <graph ...> || <project spec>: recursion verdict and the shape of the example
+	handlers["rec"] = func(a []string) string {
+		i := 0
+		for i < len(a) && a[i] != "||" {
+			i++
+		}
+		p, _ := parseProject(a[i+1:])
+		s, err := p.build()
+		if err != nil {
+			return "build=" + err.Error()
+		}
+		c := opCheck(s)
+		chk := "ok"
+		if strings.HasPrefix(c, "err:104@") {
+			chk = "104"
+		} else if c != "ok" {
+			chk = c
+		}
+		ex := "-"
+		if chk == "ok" {
+			r, raw := opExample(s)
+			if raw == nil {
+				ex = r
+			} else if !stdjson.Valid(raw) {
+				ex = "INVALIDJSON:" + hexs(raw)
+			} else {
+				ex = jsonShape(raw)
+			}
+		}
+		return "check=" + chk + " ex=" + ex
 	}
 }
